@@ -334,7 +334,7 @@ func ruleAErrMap(p *Program, r *Reporter) {
 							out = append(out, src{n, instrPos(x), p.FuncName(fn)})
 						}
 					case *ssa.UnOp:
-						if g, ok := x.X.(*ssa.Global); ok && x.Op == token.MUL && isErrorType(x.Type()) && g.Pkg != nil {
+						if g, ok := x.X.(*ssa.Global); ok && x.Op == token.MUL && isErrorType(x.Type()) && g.Pkg != nil && usedAsValue(x) {
 							n := g.Pkg.Pkg.Name() + "." + g.Name()
 							if !seen[n] {
 								seen[n] = true
@@ -818,6 +818,22 @@ func factExcludesNaN(cond ssa.Value, truth bool, recv ssa.Value) bool {
 		}
 	case *ssa.Phi:
 		// short-circuit `a || b` lowered to a phi of constants and b: only handled through the nested Ifs
+	}
+	return false
+}
+
+// usedAsValue: a loaded sentinel is returned, stored or passed on (not merely compared).
+func usedAsValue(v ssa.Value) bool {
+	rs := v.Referrers()
+	if rs == nil {
+		return false
+	}
+	for _, ref := range *rs {
+		switch ref.(type) {
+		case *ssa.BinOp:
+		default:
+			return true
+		}
 	}
 	return false
 }
